@@ -1,6 +1,6 @@
 CONSTANTS
   MaxObj = 2
-  Wide = FALSE
+  Wide = TRUE
   MathTable <- NoTable
 INIT EInit
 NEXT ENext
